@@ -165,6 +165,11 @@ def obligations(tier):
             for backend, f in (("polars", fns_p), ("sql", fns_s)):
                 obs.append(Obligation(f"C02/V/{backend}/{skel}/{label}", "V1+V2" if backend == "polars" else "V1+V3", f"{label} on {skel} ({backend}) computes its documented meaning", make_run(skel, label, fn, expect, backend),
                                       functions=f, bounded=f"table width {skel.w} (names symbolic)", tags=("cross_backend",)))
+    from . import c08
+
+    # V3/slice: LIMIT/OFFSET composition for symbolic n / offsets (the same VC as C08/S6, stated here for slice_head's own meaning)
+    obs.append(Obligation("C02/V3/slice_compose/sql", "V3", "slice_head after slice_head on SQL selects rows [O+k, O+k+min(n, max(L-k,0))) for all L, O, n, k", c08.make_s6("sql"), functions=[H.fn_info(H.sql_backend.SqlImpl.compile_ast)], replayer=c08.replay_s6))
+    obs.append(Obligation("C02/V2/slice_compose/polars", "V2", "Polars applies slice(offset, n) to the current frame", c08.make_s6("polars"), functions=[H.fn_info(H.polars_backend.compile_ast)]))
     return obs
 
 
